@@ -26,8 +26,8 @@ class C01(Check):
             'applied and every output coordinate was compared with the brute-force anchor-and-scale reference')
     technique = ('exhaustive enumeration of labelled bond graphs x geometry classes x targets x placements x '
                  'scale factors on the real ExchangeMap, compared with a brute-force reference map')
-    level_text = ('every labelled graph on 3..4 (quick) / 3..5 (thorough) atoms with an anchor, in 10 geometry classes '
-                  '(incl. exactly collinear along 6 directions, nearly collinear with sin ~ 1e-9 and 3e-10, and axis-aligned right angles), targets of 1-3 '
+    level_text = ('every labelled graph on 3..4 (quick) / 3..5 (thorough) atoms with an anchor, in 11 geometry classes '
+                  '(incl. exactly collinear along 6 directions, nearly collinear with sin ~ 1e-9 and 3e-10, axis-aligned right angles, and a generic geometry shrunk to anchor separations of 0.01-0.1 nm), targets of 1-3 '
                   '(thorough also 6, and 40 on references up to 4 atoms) atoms in 3 tie-free placements, 5 scale factors in (0, 2], all executed on '
                   'the real code; a coverage statement over this finite product, not a proof for all reals')
     level_note = ('trusted: numpy arithmetic, the graph enumerator (self-tested against closed-form counts), the '
@@ -50,10 +50,10 @@ class C01(Check):
                 u += [{'n': n, 'geo': [geo], 'mod': mod, 'r': r} for r in range(mod)]
         # anchors that are NEARLY collinear, sin(angle) just above the library's 1e-10 fallback threshold
         # (neither generic nor exact: the frame must still be orthonormal to 1e-9).  Own signatures map/near_col_*.
-        self.bounds['geometry_classes'] = list(xm.GEO) + list(xm.NEAR)
+        self.bounds['geometry_classes'] = list(xm.GEO) + list(xm.NEAR) + list(xm.SMALL)
         for n in range(3, nmax + 1):
             mod = {3: 1, 4: 2, 5: 16}[n]
-            for geo in xm.NEAR:
+            for geo in list(xm.NEAR) + list(xm.SMALL):
                 u += [{'n': n, 'geo': [geo], 'mod': mod, 'r': r} for r in range(mod)]
         return u
 
@@ -81,7 +81,8 @@ class C01(Check):
         n, edges, geo, m, place = case['n'], case['edges'], case['geo'], case['m'], case['place']
         anch = xm.anchors(n, edges)
         rpos = xm.ref_positions(geo, n, seed)
-        tpos = xm.target_positions(rpos, anch, m, place, seed)
+        tpos = xm.target_positions(rpos, anch, m, place, seed,
+                                   margin=xm.MARGIN * xm.SMALL.get(geo, 1.0))
         ref = xm.ref_molecule(n, edges)
         ref.atoms_positions = rpos.copy()
         tgt = xm.tgt_molecule(m)
@@ -90,10 +91,13 @@ class C01(Check):
         for s in ([case['s']] if 's' in case else SCALES):
             cdesc = dict(case, s=s)
             assign, exp, marg = xm.ref_map(rpos, anch, tpos, s)
-            assert marg >= xm.MARGIN or len(anch) == 1
+            assert marg >= xm.MARGIN * xm.SMALL.get(geo, 1.0) or len(anch) == 1
             try:
                 emap = ExchangeMap(ref, tgt, s)
+                # "p is the atom's position AT CONSTRUCTION": the target object is moved before the first use
+                tgt.atoms_positions = tpos[::-1] * 0.5 + np.array([3.0, 1.0, -2.0])
                 out = emap(ref).atoms_positions
+                tgt.atoms_positions = tpos.copy()
                 eq = emap.equivalences
                 # the law is about the construction configuration whenever the map is applied to it:
                 # apply the map to another configuration in between, then to the construction object again
